@@ -114,7 +114,7 @@ var clauseKeywords = map[string]bool{
 	"func": true, "trusted": true, "pure": true, "inline": true, "ignore": true, "spec": true, "lemma": true, "import": true,
 	"requires": true, "requires_inv": true, "ensures": true, "modifies": true, "loop": true, "arith": true, "overflow": true, "allow_panic": true,
 	"theory": true, "untrusted_input": true, "pragma": true, "assert": true, "note": true, "tparams": true, "ghost": true, "decl": true, "atcall": true, "ignorepkg": true, "trusted_ensures": true,
-	"guarded_by": true, "requires_held": true, "holds_during": true, "lock_order": true, "unshared": true, "lock_alias": true, "assert_before": true, "assert_after": true, "hint_after": true, "assume_after": true, "closure_requires": true,
+	"guarded_by": true, "requires_held": true, "holds_during": true, "lock_order": true, "unshared": true, "lock_alias": true, "assert_before": true, "assert_after": true, "hint_after": true, "hint_before": true, "assume_after": true, "closure_requires": true,
 }
 
 type rawClause struct {
@@ -409,7 +409,7 @@ func loadContracts(dir, pkgPath string) (*PkgContracts, error) {
 				cur.TParams = strings.TrimSpace(c.text)
 			case "closure_requires":
 				cur.AssertsBefore = append(cur.AssertsBefore, &AssertBefore{ClosureReq: true, Anchor: "return func(", Clause: &Clause{Text: strings.TrimSpace(c.text), Line: c.line}})
-			case "assert_before", "assert_after", "hint_after", "assume_after":
+			case "assert_before", "assert_after", "hint_after", "hint_before", "assume_after":
 				// assert_before "<substring of the statement's source>" <expr>
 				t := strings.TrimSpace(c.text)
 				if !strings.HasPrefix(t, "\"") {
@@ -419,7 +419,7 @@ func loadContracts(dir, pkgPath string) (*PkgContracts, error) {
 				if k < 0 {
 					return nil, fmt.Errorf("%s:%d: assert_before: unterminated anchor", path, c.line)
 				}
-				cur.AssertsBefore = append(cur.AssertsBefore, &AssertBefore{After: c.kw != "assert_before", Hint: c.kw == "hint_after", Assume: c.kw == "assume_after", Anchor: t[1 : 1+k], Clause: &Clause{Text: strings.TrimSpace(t[2+k:]), Line: c.line}})
+				cur.AssertsBefore = append(cur.AssertsBefore, &AssertBefore{After: c.kw != "assert_before" && c.kw != "hint_before", Hint: c.kw == "hint_after" || c.kw == "hint_before", Assume: c.kw == "assume_after", Anchor: t[1 : 1+k], Clause: &Clause{Text: strings.TrimSpace(t[2+k:]), Line: c.line}})
 			case "atcall":
 				// atcall <CalleeName> <expr over caller variables and the callee's parameter names>
 				f := strings.SplitN(strings.TrimSpace(c.text), " ", 2)
